@@ -236,6 +236,8 @@ def tie_accelerations(c, rebound, exe):
     for k in ("forceS", "var1S", "var2S"):
         cm[k] = Cmp(k, 1e-13)
     ad["var1S"] = Cmp("AD:var1S", 1e-12)
+    cm["tp-active"] = Cmp("tp-active", 1e-13)
+    ad["tp-active"] = Cmp("AD:tp-active", 1e-12)
     ad["var2S-massless"] = Cmp("AD:var2S-massless", 1e-12)
     excl = {"softening": Cmp("excluded:softening", 0.0), "var2-massive-testparticles": Cmp("excluded:var2-massive-tp", 0.0),
             "tp-branch-massive-inactive": Cmp("excluded:tp-branch-massive-inactive", 0.0)}
@@ -273,6 +275,16 @@ def tie_accelerations(c, rebound, exe):
             for i in range(n):
                 q[i].m, q[i].x, q[i].y, q[i].z = dat[i]
         tp1, tp1b, tpdd = (gen_var(rng, 1, L, m0, False)[0] for _ in range(3))
+        tpa1, tpa1b, tpadd = (gen_var(rng, 1, L, m0, False)[0] for _ in range(3))
+        ia = na - 1                                  # an ACTIVE particle varied through add_variation(testparticle=ia)
+        vtpa1 = sim.add_variation(testparticle=ia)
+        vtpa1.particles[0].m, vtpa1.particles[0].x, vtpa1.particles[0].y, vtpa1.particles[0].z = tpa1
+        vtpa2 = None
+        if tptype == 0:
+            vtpa1b = sim.add_variation(testparticle=ia)
+            vtpa2 = sim.add_variation(order=2, testparticle=ia, first_order=vtpa1, first_order_2=vtpa1b)
+            for v_, d_ in ((vtpa1b, tpa1b), (vtpa2, tpadd)):
+                v_.particles[0].m, v_.particles[0].x, v_.particles[0].y, v_.particles[0].z = d_
         if tptype == 0 and n - na >= 2:
             vtp1 = sim.add_variation(testparticle=n - 1)
             vtp1b = sim.add_variation(testparticle=n - 1)
@@ -322,6 +334,33 @@ def tie_accelerations(c, rebound, exe):
             push(["var2S"] + hdr + toks2, h2s)
             tgt = ad["var2S-massless"] if massless else excl["var2-massive-testparticles"]
             push(["ad2S"] + hdr + toks2, lambda out, want=want, sc=sc, inf=inf, tgt=tgt: tgt.add(vals(out), want, sc, inf))
+        # single test-particle variation of the ACTIVE particle ia: the force on it comes from the other active bodies and, for
+        # testparticle_type 1, also from the bodies beyond N_active (rule of the force loops; gravity.c first-order branch
+        # 'j>=N_active && (i>=N_active || !testparticle_type)', second-order branch: active j only)
+        if n >= 3:
+            for v_, order_ in ((vtpa1, 1), (vtpa2, 2)):
+                if v_ is None:
+                    continue
+                js = [j for j in range(n) if j != ia and (j < na or (tptype == 1 and order_ == 1))]
+                oth = [ps[j] for j in js]
+                xyz = [d2h(ps[ia][1]), d2h(ps[ia][2]), d2h(ps[ia][3])]
+                z_ = lambda d: [d if j == ia else [0.0] * 4 for j in range(n)]
+                if order_ == 1:
+                    extra = [d2h(x) for x in tpa1[1:]]
+                    sct = [scale1(G, ps, z_(tpa1), ia, others=js) + 1e-300]
+                    ops_ = ("var1tp", "ad1tp")
+                else:
+                    extra = [d2h(x) for x in tpadd[1:] + tpa1[1:] + tpa1b[1:]]
+                    sct = [scale2(G, ps, z_(tpa1), z_(tpa1b), z_(tpadd), ia) + 1e-300]
+                    ops_ = ("var2tp", "ad2tp")
+                want_t = acc(v_.particles, 1)
+                inft = dict(info, testparticle=ia, kind="active particle varied, order %d" % order_, others=js)
+                toks_ = [g] + xyz + extra + [str(len(oth))] + gp_tokens(oth)
+                push([ops_[0]] + toks_, lambda out, want_t=want_t, sct=sct, inft=inft: cm["tp-active"].add(vals(out), want_t, sct, inft))
+                push([ops_[1]] + toks_, lambda out, want_t=want_t, sct=sct, inft=inft: ad["tp-active"].add(vals(out), want_t, sct, inft))
+                variants["tp-active:type%d:o%d" % (tptype, order_)] = variants.get("tp-active:type%d:o%d" % (tptype, order_), 0) + 1
+        if tptype == 0:
+            pass
             # single test-particle variations of the last (inactive) particle, other inactive particles present
             if n - na >= 2:
                 ti = n - 1
@@ -609,6 +648,7 @@ def tie_com_rescale(c, rebound, exe):
             push(["adcom2"] + toks, h2ad)
         c.count(("com", n, case % 8), nontrivial=n >= 2, n=3)
     # ---------------------------------------------------------------- rescale_var called directly
+    whchk = {"cases": 0, "flag_expected_1": 0, "flag_wrong": 0, "p_jh_checked": 0, "p_jh_modified": 0, "first": None}
     for case in range(ncases * 2):
         rng = c.rng.fork()
         n = rng.choice([1, 2, 3, 4])
@@ -619,9 +659,10 @@ def tie_com_rescale(c, rebound, exe):
         cfgs = []
         firsts = []
         ncfg = rng.randint(1, 5)
+        force_wh = (case % 6 == 0)      # deterministic share of cases in the WHFast safe_mode=0 branch with allocated Jacobi coordinates
         for v in range(ncfg):
-            tp = rng.randint(0, n - 1) if rng.chance(0.3) else -1
-            if firsts and rng.chance(0.3):
+            tp = rng.randint(0, n - 1) if (rng.chance(0.3) and not force_wh) else -1
+            if firsts and rng.chance(0.3) and not force_wh:
                 cand = [f for f in firsts if (f[1] >= 0) == (tp >= 0)]
                 if cand:
                     fa, fb = rng.choice(cand), rng.choice(cand)
@@ -631,7 +672,7 @@ def tie_com_rescale(c, rebound, exe):
             vc = sim.add_variation(testparticle=tp)
             firsts.append((vc, tp))
             cfgs.append((vc, 1, tp))
-        big = rng.choice([1e100, 1e100, 1e101, 1e99, 1e150, 1.0])
+        big = rng.choice([1e100, 1e100, 1e101, 1e99, 1e150, 1.0]) if not force_wh else 1e101
         for vc, order, tp in cfgs:
             q = vc.particles
             mag = big * rng.choice([0.05, 0.5, 0.999, 1.001, 2.0, 30.0])
@@ -640,11 +681,11 @@ def tie_com_rescale(c, rebound, exe):
                     setattr(q[i], comp, mag * rng.normal() * rng.choice([1.0, 1.0, 1e-30]))
                 if rng.chance(0.03):
                     setattr(q[i], rng.choice(CART), rng.choice([float("inf"), float("nan"), -float("inf")]))
-            lr = rng.choice([0.0, 0.0, 0.0, -1.0, 230.25850929940458, rng.uniform(-2, 500)])
+            lr = rng.choice([0.0, 0.0, 0.0, -1.0, 230.25850929940458, rng.uniform(-2, 500)]) if not force_wh else 0.0
             vc.lrescale = lr
-        integ = rng.choice(["ias15", "whfast", "whfast", "leapfrog", "eos"])
+        integ = rng.choice(["ias15", "whfast", "whfast", "leapfrog", "eos"]) if not force_wh else "whfast"
         sim.integrator = integ
-        unsync = rng.chance(0.4)
+        unsync = rng.chance(0.4) and not force_wh
         if integ == "whfast":
             sim.ri_whfast.is_synchronized = 0 if unsync else 1
         if integ == "eos":
@@ -652,6 +693,19 @@ def tie_com_rescale(c, rebound, exe):
         sync = not (integ in ("whfast", "eos") and unsync)
         N = sim.N
         nreal = N - sim.N_var
+        wh_safe = None
+        pj_before = None
+        if integ == "whfast":
+            wh_safe = rng.randint(0, 1) if not force_wh else 0
+            sim.ri_whfast.safe_mode = wh_safe
+            if all(o == 1 and tp_ < 0 for _, o, tp_ in cfgs) and (rng.chance(0.7) or force_wh):
+                # allocate and fill the cached Jacobi coordinates (only possible when WHFast accepts all sets)
+                if clib.reb_integrator_whfast_init(ctypes.byref(sim)) == 0:
+                    clib.reb_integrator_whfast_from_inertial(ctypes.byref(sim))
+                    sim.ri_whfast.is_synchronized = 0 if unsync else 1
+                    pj = sim.ri_whfast._p_jh
+                    pj_before = [d2h(getattr(pj[k], comp)) for k in range(N) for comp in CART]
+            sim.ri_whfast.recalculate_coordinates_this_timestep = 0
         before = [[getattr(sim.particles[k], comp) for comp in CART] for k in range(N)]
         lrs = [sim.var_config[v]._lrescale for v in range(ncfg)]
         toks = ["rescale", d2h(1e100), str(nreal), "1" if sync else "0", str(ncfg)]
@@ -665,6 +719,22 @@ def tie_com_rescale(c, rebound, exe):
         if [[d2h(x) for x in r] for r in after[:nreal]] != [[d2h(x) for x in r] for r in before[:nreal]]:
             untouched["rescale_real_particles_modified"] += 1
         changed = sum(1 for a, b in zip(lrs, lrs2) if d2h(a) != d2h(b))
+        if integ == "whfast":
+            # WHFast branch of rescale_var: with safe_mode 0 the cached Jacobi coordinates are stale after a rescale -> the
+            # routine must request their recalculation and must not touch them itself
+            flag = sim.ri_whfast.recalculate_coordinates_this_timestep
+            want_flag = 1 if (wh_safe == 0 and changed > 0) else 0
+            whchk["cases"] += 1
+            whchk["flag_expected_1"] += want_flag
+            if flag != want_flag:
+                whchk["flag_wrong"] += 1
+                whchk["first"] = whchk["first"] or dict(case=case, safe_mode=wh_safe, rescaled_sets=changed, flag=flag, expected=want_flag)
+            if pj_before is not None:
+                pj = sim.ri_whfast._p_jh
+                whchk["p_jh_checked"] += 1
+                if [d2h(getattr(pj[k], comp)) for k in range(N) for comp in CART] != pj_before:
+                    whchk["p_jh_modified"] += 1
+                    whchk["first"] = whchk["first"] or dict(case=case, safe_mode=wh_safe, rescaled_sets=changed, note="rescale_var modified the cached Jacobi coordinates p_jh")
         bk = "rescaled=%d warn=%d" % (min(changed, 2), warn & 3)
         branch[bk] = branch.get(bk, 0) + 1
         inf = dict(case=case, N_real=nreal, integrator=integ, synchronized=sync, configs=[(o, vc.index, tp) for vc, o, tp in cfgs], lrescale=lrs)
@@ -692,6 +762,12 @@ def tie_com_rescale(c, rebound, exe):
         bad = adc[k].report(c, "search")
         if bad is not None:
             c.violation("AD:" + k, "move_to_com variational correction (%s) is not the derivative of the centre-of-mass shift (rel %.3g)" % (k, bad["rel"]), bad)
+    c.cov["rescale_whfast_branch"] = {k: v for k, v in whchk.items() if k != "first"}
+    if whchk["flag_wrong"] or whchk["p_jh_modified"]:
+        c.corr_break("reb_simulation_rescale_var, WHFast branch: recalculate_coordinates_this_timestep wrong in %d cases, cached Jacobi "
+                     "coordinates modified in %d cases" % (whchk["flag_wrong"], whchk["p_jh_modified"]), whchk["first"])
+    if whchk["flag_expected_1"] == 0 or whchk["p_jh_checked"] == 0:
+        c.corr_break("rescale tie never reached the WHFast safe_mode=0 branch with a rescale (%s)" % whchk)
     c.cov["rescale_branches"] = branch
     c.cov["untouched_checks"] = untouched
     if untouched["testparticle_sets_moved"]:
@@ -1614,10 +1690,16 @@ def search_rescale_megno(c, rebound):
     for s in range(nsys):
         rng = c.rng.fork()
         sy = gen_system(rebound, rng)
-        for integ in ("ias15", "whfast", "bs"):
+        for integ in ("ias15", "whfast", "whfast/safe_mode=0", "whfast/safe_mode=0/corrector=11", "bs"):
             sims = []
+            wopts = {"dt": 0.02}
+            if "safe_mode=0" in integ:
+                wopts["safe_mode"] = 0
+            if "corrector=11" in integ:
+                wopts["corrector"] = 11
+            label, integ = integ, integ.split("/")[0]
             for big in (9e99, 1e-10):
-                sim = sy.build(integ, None, {"dt": 0.02})
+                sim = sy.build(integ, None, wopts)
                 v = sim.add_variation()
                 v2a = sim.add_variation()            # a first-order set with lrescale<0: must never be rescaled
                 v2a.lrescale = -1.0
@@ -1651,15 +1733,16 @@ def search_rescale_megno(c, rebound):
                 e = max(e, abs(av - b) / sc)
             worst = max(worst, e)
             nmax = max(abs(x) for x in var_state(nb, range(3)))
-            res["%d/%s" % (s, integ)] = {"lrescale": lr, "rel": float("%.3g" % e), "max_component_after": max(abs(x) for x in A),
+            res["%d/%s" % (s, label)] = {"lrescale": lr, "rel": float("%.3g" % e), "max_component_after": max(abs(x) for x in A),
                                           "real_particles_bitwise_equal": realsame, "skipped_set_max": nmax, "skipped_set_lrescale": nb.lrescale}
-            c.count(("rescale-run", s, integ), nontrivial=lr > 0)
-            rep = dict(integrator=integ, T=T, G=sy.G, m0=sy.m0, bodies=sy.bodies, lrescale=lr, rel=e)
+            c.count(("rescale-run", s, label), nontrivial=lr > 0)
+            rep = dict(integrator=label, T=T, G=sy.G, m0=sy.m0, bodies=sy.bodies, lrescale=lr, rel=e)
             if not (lr > 0 and max(abs(x) for x in A) <= 1e100):
                 c.violation("rescale:not-rescaled:" + integ, "a first-order set growing past 1e100 was not rescaled", rep)
             if not e <= 1e-6:
-                c.violation("F19:ias15-rescale-stale-state" if integ == "ias15" else "rescale:discontinuous:" + integ, "exp(lrescale)*delta is not continuous across rescaling (rel %.3g)" % e, rep)
-            if not realsame and integ != "bs":   # BS's step control looks at the variational particles too
+                c.violation("F19:ias15-rescale-stale-state" if integ == "ias15" else "rescale:discontinuous:" + label, "exp(lrescale)*delta is not continuous across rescaling (rel %.3g)" % e, rep)
+            if not realsame and integ != "bs" and "safe_mode=0" not in label:   # BS's step control looks at the variational particles too; with
+                                                                               # safe_mode=0 a rescale makes WHFast rebuild its Jacobi coordinates (roundoff)
                 c.violation("rescale:real-changed:" + integ, "real particles differ between a rescaled and a never-rescaled run", rep)
             if nb.lrescale != -1.0 or not nmax > 1e100:
                 c.violation("rescale:lrescale-negative:" + integ, "a set with lrescale<0 was rescaled", rep)
@@ -2155,7 +2238,7 @@ APPLICABLE_DIMENSIONS = [
     "history: rescale event immediately followed by a rejected step",
     "frame: move_to_com mid-run", "frame: move_to_hel mid-run", "frame: rotate mid-run", "frame: convert_particle_units mid-run",
     "geometry: centre of mass offset and moving", "geometry: hyperbolic body",
-    "megno: whfast", "megno: ias15", "megno: eos", "megno: after restore",
+    "megno: whfast", "megno: ias15", "megno: eos", "megno: after restore", "megno: other variational sets before/after the MEGNO set",
     "scale: more than 128 particles (allocation boundary)", "python: shortcut names",
 ]
 
@@ -2550,6 +2633,33 @@ def search_dimensions(c, rebound):
             dim(c, "megno: " + integ)
         else:
             fails.append(dict(dimension="megno: " + integ, integrator=integ, keys=[], megno=Y, lyapunov_T=ly, rel_err=abs(Y - 2), oracle_uncertainty=0.0, bodies=sym.bodies))
+    # MEGNO must not depend on where the MEGNO set sits among the variational configurations
+    for integ in ("whfast", "ias15", "eos"):
+        T = 2 * math.pi * (150 if integ != "ias15" else 60)
+        ys = {}
+        for order_ in ("only", "first", "last"):
+            sim = sym.build(integ, None, {})
+            sim.dt = 2 * math.pi / 40
+            sim.move_to_com()
+            if order_ == "last":
+                v_ = sim.add_variation(); v_.particles[1].x = 1.0
+            sim.init_megno(seed=5)
+            if order_ == "first":
+                v_ = sim.add_variation(); v_.particles[1].x = 1.0
+            try:
+                sim.integrate(T)
+                ys[order_] = sim.megno()
+            except Exception as ex:
+                ys[order_] = float("nan")
+        dY = max(abs(ys["first"] - ys["only"]), abs(ys["last"] - ys["only"]))
+        meg["config order " + integ] = {k_: float("%.8g" % v_) for k_, v_ in ys.items()}
+        ntot += 1
+        c.count(("dim", "megno-config-order", integ), nontrivial=True)
+        dim(c, "megno: other variational sets before/after the MEGNO set")
+        if not dY <= 1e-9:
+            c.violation("F27:whfast-megno-depends-on-config-order" if integ == "whfast" else "megno:config-order:" + integ,
+                        "%s: MEGNO depends on the position of the MEGNO set among the variational configurations: only=%.8f first=%.8f last=%.8f" %
+                        (integ, ys["only"], ys["first"], ys["last"]), dict(integrator=integ, megno=ys, bodies=sym.bodies, T=T))
     for integ in (["whfast", "ias15"] if full else ["whfast"]):
         T = 2 * math.pi * 300
         res = []
@@ -2702,7 +2812,9 @@ def search_rescale_then_reject(c, rebound):
 PW_FACTORS = {
     "integ":   ["ias15", "bs", "whfast", "leapfrog"],
     "order":   [1, 2],
-    "role":    ["all-active", "nactive-type0-massless", "nactive-type0-massive", "nactive-type1-massive", "testparticle-var"],
+    "role":    ["all-active", "nactive-type0-massless", "nactive-type0-massive", "nactive-type1-massive", "testparticle-var",
+                "testparticle-var-active-type0", "testparticle-var-active-type1"],   # testparticle= variation of a massless ACTIVE body, massive inactive body present
+    "whopt":   ["default", "safe_mode=0", "corrector=7", "safe_mode=0+corrector=11"],   # ri_whfast options (matter for WHFast and after a switch to it)
     "param":   ["cart", "mass", "orb", "pal"],
     "sign":    [1, -1],
     "pattern": ["single", "split", "reversal"],
@@ -2710,20 +2822,20 @@ PW_FACTORS = {
     "evA":     ["none", "rescale", "dt-raise", "switch", "restore", "copy", "frame-op", "synchronize"],   # event in step s
     "evB":     ["none", "rescale", "dt-raise", "switch", "restore", "copy", "frame-op", "synchronize"],   # event in step s+1
 }
-PW_ORDER = ["integ", "order", "role", "param", "sign", "pattern", "option", "evA", "evB"]
+PW_ORDER = ["integ", "order", "role", "param", "sign", "pattern", "option", "whopt", "evA", "evB"]
 
 
 def pw_valid(a):
     """constraints = combinations the code rejects (or a recorded finding); listed explicitly"""
     if a["integ"] == "whfast" and a["order"] == 2:
         return False        # "WHFast/MEGNO only supports first order variational equations."
-    if a["integ"] == "whfast" and a["role"] == "testparticle-var":
+    if a["integ"] == "whfast" and a["role"].startswith("testparticle-var"):
         return False        # "Test particle variations not supported with WHFast."
     if a["integ"] == "whfast" and a["param"] == "mass":
         return False        # F16 (known finding): WHFast tangent map has no mass terms
-    if a["role"] == "nactive-type1-massive" and a["order"] == 2:
+    if a["role"] in ("nactive-type1-massive", "testparticle-var-active-type1") and a["order"] == 2:
         return False        # "testparticletype=1 not implemented for second order variational equations."
-    if a["role"] == "testparticle-var" and a["param"] == "mass":
+    if a["role"].startswith("testparticle-var") and a["param"] == "mass":
         return False        # a test particle has no mass to vary
     if a["order"] == 2 and "rescale" in (a["evA"], a["evB"]):
         return False        # second-order sets are never rescaled (warning + return)
@@ -2741,7 +2853,7 @@ def pw_array(seed=20260930):
 
     def rec(i, a):
         if i == len(con):
-            if pw_valid(dict(a, sign=1, pattern="single", option="default")):
+            if pw_valid(dict(a, sign=1, pattern="single", option="default", whopt="default")):
                 items = list(a.items())
                 for x in range(len(items)):
                     for y in range(x + 1, len(items)):
@@ -2797,15 +2909,21 @@ def pw_run_case(c, rebound, a, rng, tmpdir):
         bodies = [(m, k, [el[0] * sc_] + list(el[1:])) for m, k, el in bodies]
     nactive = None
     tptype = 0
+    if role.startswith("testparticle-var-active"):
+        bodies[0] = (0.0, bodies[0][1], bodies[0][2])       # the varied body: massless but inside the active set
     if role != "all-active":
-        mt = {"nactive-type0-massless": 0.0, "nactive-type0-massive": 8e-4, "nactive-type1-massive": 8e-4, "testparticle-var": 0.0}[role]
+        mt = {"nactive-type0-massless": 0.0, "nactive-type0-massive": 8e-4, "nactive-type1-massive": 8e-4, "testparticle-var": 0.0,
+              "testparticle-var-active-type0": 8e-4, "testparticle-var-active-type1": 8e-4}[role]
         a3 = (3.3 + rng.uniform(0, 0.6)) * (bodies[1][2][0] / base.bodies[1][2][0])
         bodies.append((mt, "orb", [a3, rng.uniform(0.02, 0.15), rng.uniform(0.02, 0.4), rng.uniform(0, 6.28), rng.uniform(0, 6.28), rng.uniform(0, 6.28)]))
         nactive = 3
-        tptype = 1 if role == "nactive-type1-massive" else 0
+        tptype = 1 if role in ("nactive-type1-massive", "testparticle-var-active-type1") else 0
     sy = System(rebound, G, m0, bodies, nactive)
-    tp = 3 if role == "testparticle-var" else None
-    i = 3 if (role == "testparticle-var" or (role != "all-active" and param != "mass" and rng.chance(0.5))) else rng.choice([1, 2])
+    tp = 3 if role == "testparticle-var" else (1 if role.startswith("testparticle-var-active") else None)
+    if tp == 1:
+        i = 1
+    else:
+        i = 3 if (role == "testparticle-var" or (role != "all-active" and param != "mass" and rng.chance(0.5))) else rng.choice([1, 2])
     j = i if (tp is not None or rng.chance(0.6)) else (1 if i != 1 else 2)
     if order == 1:
         keys = [(i, {"cart": "x", "mass": "m_cart", "orb": "a", "pal": "lambda"}[param])]
@@ -2817,6 +2935,10 @@ def pw_run_case(c, rebound, a, rng, tmpdir):
 
     def setup(sim):
         sim.testparticle_type = tptype
+        if "safe_mode=0" in a["whopt"]:
+            sim.ri_whfast.safe_mode = 0
+        if "corrector=" in a["whopt"]:
+            sim.ri_whfast.corrector = int(a["whopt"].split("corrector=")[1])
         if a["option"] == "softening":
             sim.softening = 0.12
         if a["option"] == "noop-callbacks":
@@ -2844,6 +2966,11 @@ def pw_run_case(c, rebound, a, rng, tmpdir):
     rot = rebound.Rotation(angle=0.9, axis=[0.2, 0.7, -0.4])
 
     def event(ev, sim, k):
+        if ev in ("rescale", "frame-op", "switch", "dt-raise"):
+            sim.synchronize()                   # with safe_mode=0 the user has to synchronize before editing particles, changing dt or
+                                                # switching the integrator ...
+        if ev in ("rescale", "frame-op"):
+            sim.ri_whfast.recalculate_coordinates_this_timestep = 1     # ... and tell WHFast that the particles changed
         if ev == "rescale":
             if sim.N_var_config > 0:            # the user makes the stored variation huge: rescale_var fires at the end of the next step
                 vc = sim.var_config[0]
@@ -2957,7 +3084,7 @@ def search_pairwise(c, rebound):
             for ea in PW_FACTORS["evA"]:
                 for eb in PW_FACTORS["evB"]:
                     a = dict(integ=integ, order=1, role="all-active", param=["cart", "orb", "pal"][(n3) % 3], sign=1 if n3 % 2 == 0 else -1,
-                             pattern="single", option="default", evA=ea, evB=eb)
+                             pattern="single", option="default", whopt=["default", "safe_mode=0", "safe_mode=0+corrector=11", "corrector=7"][n3 % 4], evA=ea, evB=eb)
                     if not pw_valid(a):
                         continue
                     n3 += 1
